@@ -11,6 +11,7 @@ mod lex;
 mod run;
 mod session;
 mod syntax;
+mod threads;
 
 use std::io::{BufRead, Write};
 
@@ -62,6 +63,7 @@ fn main() {
             "parse" => syntax::parse_job(&job),
             "format" => syntax::format_job(&job),
             "safety" => syntax::safety_job(&job),
+            "threads" => threads::threads_job(&job),
             other => {
                 eprintln!("kv: unknown command {other}");
                 std::process::exit(2);
@@ -70,5 +72,9 @@ fn main() {
         let mut out = stdout.lock();
         writeln!(out, "{}", serde_json::to_string(&result).unwrap()).unwrap();
         out.flush().unwrap();
+        if result.get("exit_after").and_then(|v| v.as_bool()).unwrap_or(false) {
+            // threads of the round are stuck and cannot be recovered: leave, the driver restarts after this job
+            std::process::exit(0);
+        }
     }
 }
